@@ -167,6 +167,64 @@ func spell(g *Gen, p vox) string {
 	return strings.Join(out, "/")
 }
 
+// offQuantifier: turns a valid voxel into one the library still parses but the property does not quantify over. Values are chosen so that
+// the library returns at once (no horizontal zoom below 0, never more than a few turns of its addition loop).
+func offQuantifier(g *Gen, p vox) (vox, []string) {
+	tags := []string{"outside-quantifier"}
+	ww := int64(1) << uint(p.h)
+	offIndex := func(x int64) int64 {
+		switch g.Intn(8) {
+		case 0:
+			return ww // first index past the grid
+		case 1:
+			return -1 - g.Int63n(3*ww)
+		case 2:
+			if ww < 1<<33 {
+				return 1 << 33
+			}
+			return 1<<36 + x
+		case 3:
+			return g.Pick(1<<53-1-x, 1<<53, 1<<53+1, 1<<62) // at and beyond float64's exact integers: mostly "skipped"
+		case 4:
+			return 2*ww - 1
+		}
+		return (1+g.Int63n(1000))*ww + x
+	}
+	n := 1 + g.Intn(2)
+	for k := 0; k < n; k++ {
+		switch g.Intn(8) {
+		case 0, 1:
+			p.x = offIndex(p.x)
+			tags = append(tags, "oq:x-off-grid")
+		case 2, 3:
+			p.y = offIndex(p.y)
+			tags = append(tags, "oq:y-off-grid")
+		case 4, 5:
+			vw := int64(1) << uint(p.v&63)
+			if p.v < 0 || p.v > 35 {
+				vw = 1
+			}
+			p.f = g.Pick(vw, -vw-1, vw+g.Int63n(1<<40), -vw-1-g.Int63n(1<<40), 1<<62, -(1 << 62), vTarget(g))
+			if p.f >= -vw && p.f < vw {
+				p.f = vw
+			}
+			tags = append(tags, "oq:f-off-range")
+		case 6:
+			p.v = g.Pick(36, 37, 64, 99, -1, -7, 1<<40)
+			tags = append(tags, "oq:vzoom-off")
+		case 7:
+			if g.Chance(0.4) { // the model does not judge these: class "skipped"
+				p.h = g.Pick(36, 37, 40)
+				tags = append(tags, "oq:hzoom>35")
+			} else {
+				p.x, p.y = offIndex(p.x), offIndex(p.y)
+				tags = append(tags, "oq:x-off-grid", "oq:y-off-grid")
+			}
+		}
+	}
+	return p, tags
+}
+
 // hShift: a horizontal shift with |d| <= 4*2^h, aimed at the guard boundaries of the wrap (x+d = -1, 0, w-1, w, -w, multiples of w)
 func hShift(g *Gen, h, x int64) int64 {
 	ww := int64(1) << uint(h)
@@ -461,6 +519,18 @@ func init() {
 			case i%25 == 1 || i%25 == 2:
 				id = spell(g, p)
 				tags = append(tags, "non-canonical-spelling")
+			case i%25 == 3:
+				// outside the quantifier but accepted by the library's parser: index off the grid, vertical index / zoom off range, in
+				// canonical or non-canonical spelling, with the usual (also huge vertical) shifts — judged from the wrapped voxel, or "skipped"
+				var ot []string
+				p, ot = offQuantifier(g, p)
+				tags = append(tags, ot...)
+				if g.Chance(0.6) {
+					id = spell(g, p)
+					tags = append(tags, "non-canonical-spelling")
+				} else {
+					id = p.id()
+				}
 			}
 			dx, dy, dv := hShift(g, p.h, p.x), hShift(g, p.h, p.y), vShift(g, p.f)
 			if malformed {
